@@ -99,17 +99,26 @@ func init() {
 		if err != nil {
 			t.Fatalf("best beacon block proposal strategy constructor: %v", err)
 		}
-		if len(ev.Handlers["head"]) != 1 {
-			t.Fatalf("expected one head event subscription, have %d", len(ev.Handlers["head"]))
+		if len(ev.Handlers["head"]) < 1 {
+			t.Fatalf("expected a head event subscription, have %d", len(ev.Handlers["head"]))
 		}
-		head := ev.Handlers["head"][0]
-		// the head event stream: every block is announced twice (the second announcement finds the
-		// recorded votes), chain time advancing with the blocks; blocks older than two epochs are pruned
-		wait := single(2*nBlocks, func(i int) {
-			k := (i / 2) % nBlocks
-			ct.SetSlot(uint64(firstSlot + k))
-			head(&apiv1.Event{Topic: "head", Data: &apiv1.HeadEvent{Slot: phase0.Slot(firstSlot + k), Block: roots[k]}})
-		})
+		// the head event stream(s), one goroutine per subscription as in production: every block is announced twice
+		// (the second announcement finds the recorded votes), chain time advancing with the blocks; blocks older than
+		// two epochs are pruned
+		var waits []func()
+		for _, head := range ev.Handlers["head"] {
+			head := head
+			waits = append(waits, single(2*nBlocks, func(i int) {
+				k := (i / 2) % nBlocks
+				ct.SetSlot(uint64(firstSlot + k))
+				head(&apiv1.Event{Topic: "head", Data: &apiv1.HeadEvent{Slot: phase0.Slot(firstSlot + k), Block: roots[k]}})
+			}))
+		}
+		wait := func() {
+			for _, w := range waits {
+				w()
+			}
+		}
 		hammer(2, 120, func(i int) {
 			resp, err := svc.Proposal(ctx, &api.ProposalOpts{Slot: phase0.Slot(firstSlot + i%nBlocks), Graffiti: [32]byte{'c', '1', '7'}})
 			if err != nil || resp == nil || resp.Data == nil {
